@@ -491,7 +491,7 @@ def genMerge (rng : Rng) (broken : Bool) : Rng × Array String :=
   let capL := if tight = 0 then kl + 1 + slack else capBig
   let (rng, extraR) := rng.below 6
   -- breakage of the right graph (mode 4: more lone vertices than a group can have members)
-  let (rng, mode) := rng.below 5
+  let (rng, mode) := rng.below 6
   let (rng, many) := rng.below 8
   let many := 14 + many
   let capR := kr + 1 + extraR + 3 + (if broken ∧ mode = 4 then many else 0)
@@ -528,6 +528,9 @@ def genMerge (rng : Rng) (broken : Bool) : Rng × Array String :=
       | 1, a :: b :: _ => match s1.tryOps [.add a, .add b, .bind a b (.alpha 0), .put b (Hx.Hex.ofBytes [9])] with | some x => x | none => s1
       | 2, a :: _ => match s1.tryOps [.add a, .put a (Hx.Hex.ofBytes [7, 7])] with | some x => x | none => s1
       | 4, fr => (fr.reverse.take many).foldl (fun (s : GenSt) a => match s.tryOps [.add a] with | some x => x | none => s) s1
+      -- a lone extra vertex whose datum was read already (present, ungrouped, nothing unread), beside another one
+      | 5, a :: b :: _ => match s1.tryOps [.add a, .put a (Hx.Hex.ofBytes [5, 5, 5]), .data a, .add b] with | some x => x | none => s1
+      | 5, a :: _ => match s1.tryOps [.add a, .put a (Hx.Hex.ofBytes [5, 5, 5]), .data a] with | some x => x | none => s1
       | _, _ => s1
     else s1
   let (rng, left) := s1.rng.pick (tl.map (·.id))
